@@ -3,8 +3,9 @@ CONSTANTS N = 3
           Names = {"", "a"}
           Devs = {}
           InitDags <- Dags3
+          MaxMiss = 1
+          ModeSet = {1, 2, 4}
+          FaultSet = {"none", "cancelFetch"}
           E = 0
-          GenFaults = {"none", "cancelFetch"}
-          GenModes = {1, 2, 3}
           MaxMissing = 0
 VIEW SGView
